@@ -300,8 +300,37 @@ func visitInstr(fr *frame, instr ssa.Instruction) continuation {
 		*addr = zero(typeparams.MustDeref(instr.Type()))
 
 	case *ssa.MakeSlice:
-		capv := boundedSize(fr.get(instr.Cap))
-		lenv := boundedSize(fr.get(instr.Len))
+		tEltSz := fr.i.sizes.Sizeof(instr.Type().Underlying().(*types.Slice).Elem())
+		var capv, lenv int64
+		if cs, symCap := fr.get(instr.Cap).(*Sym); symCap {
+			if _, symLen := fr.get(instr.Len).(*Sym); !symLen {
+				// symbolic capacity, concrete length: the runtime's checks become branches and
+				// the smallest admissible capacity is used (a larger one is observable only
+				// through aliasing after append, or by exhausting memory)
+				lenv = boundedSize(fr.get(instr.Len))
+				limit := int64(1) << 48
+				if tEltSz > 1 {
+					limit /= tEltSz
+				}
+				var bad *Sym
+				if isMathInt(cs.K) {
+					bad = symBool(fmt.Sprintf("(or (< %s %d) (> %s %d))", cs.E, lenv, cs.E, limit))
+				} else {
+					bad = symBool(fmt.Sprintf("(or (bvslt %s %s) (bvsgt %s %s))", cs.E, lit(symOfValue(cs.K, lenv)), cs.E, lit(symOfValue(cs.K, limit))))
+				}
+				if eng.Branch(bad) {
+					panic("runtime error: makeslice: cap out of range")
+				}
+				eng.assumptions["make([]T, n, c) with a symbolic capacity c: the runtime checks (n <= c, c*sizeof(T) <= 2^48) are branches; the slice is then given capacity n (memory exhaustion by a huge admissible capacity is not modelled)"] = true
+				capv = lenv
+			} else {
+				capv = boundedSize(fr.get(instr.Cap))
+				lenv = boundedSize(fr.get(instr.Len))
+			}
+		} else {
+			capv = boundedSize(fr.get(instr.Cap))
+			lenv = boundedSize(fr.get(instr.Len))
+		}
 		if lenv > capv {
 			panic("runtime error: makeslice: cap out of range")
 		}
@@ -567,7 +596,7 @@ func runFrame(fr *frame) {
 		fr.panicking = true
 		fr.panic = recover()
 		switch fr.panic.(type) {
-		case inconclusive, pathEnd, processCrash, killSignal:
+		case inconclusive, pathEnd, processCrash, killSignal, hangSignal:
 			if debugOn {
 				debugf("  unwinding %T through %s", fr.panic, fr.fn.String())
 			}
@@ -770,7 +799,7 @@ func callExternal(ext externalFn, fr *frame, args []value) (res value) {
 	defer func() {
 		if r := recover(); r != nil {
 			switch p := r.(type) {
-			case inconclusive, pathEnd, targetPanic, exitPanic, killSignal, deadlock, processCrash:
+			case inconclusive, pathEnd, targetPanic, exitPanic, killSignal, deadlock, processCrash, hangSignal:
 				panic(r)
 			case error:
 				if strings.Contains(p.Error(), "interp.") || strings.Contains(p.Error(), "interface conversion") {
